@@ -219,7 +219,7 @@ func init() {
 func init() {
 	properties["C15"] = Property{
 		Level: "exploration",
-		Rule:  "one case = one step of a history over 3 locations sharing 2 rule ids: add scheduled rule (one-shot +d, !time, recurring), overwrite by ordinary rule / by plain fact, RemRule, RemFact, cascade delete through deleteWith, Clear, reload of all locations; persistent and ephemeral recording Cronner; both states; after the step registrations are compared with the model's live scheduled rules per location and a tick is delivered for every current or former registration; plus timed scenarios (expiry of a scheduled rule; the real built-in cron through sys.System with +1s rules of one id in two locations, canary-judged); non-trivial = the set of live scheduled rules changed or a tick was delivered; distinct by canonical JSON of (state, cron kind, history prefix); every third scheduled-rule version has a condition without solution; `eventText` (the text registered with the cron service for rule ids with quotes, backslash-u, injected JSON); `noOccurrence` (replacement by and restart with a rule whose schedule never occurs, built-in cron on bolt); `croltGlue` (System with cron.CroltSimple against a stand-in for the persistent cron service: after each of 13 steps its job table equals the scheduled rules that exist; ids and locations with &, =, #, blanks)",
+		Rule:  "one case = one step of a history over 3 locations sharing 2 rule ids: add scheduled rule (one-shot +d, !time, recurring), overwrite by ordinary rule / by plain fact, RemRule, RemFact, cascade delete through deleteWith, Clear, reload of all locations; persistent and ephemeral recording Cronner; both states; after the step registrations are compared with the model's live scheduled rules per location and a tick is delivered for every current or former registration; plus timed scenarios (expiry of a scheduled rule; the real built-in cron through sys.System with +1s rules of one id in two locations, canary-judged); non-trivial = the set of live scheduled rules changed or a tick was delivered; distinct by canonical JSON of (state, cron kind, history prefix); every third scheduled-rule version has a condition without solution; `eventText` (the text registered with the cron service for rule ids with quotes, backslash-u, injected JSON); `noOccurrence` (replacement by and restart with a rule whose schedule never occurs, built-in cron on bolt); `croltGlue` (System with cron.CroltSimple against a stand-in for the persistent cron service: after each of 13 steps its job table equals the scheduled rules that exist; ids and locations with &, =, #, blanks); `reloadedInstance` (built-in cron, second instance of the location, same-schedule replacement); (batch 0) `remVsAdd`: RemRule against AddRule of a scheduled rule, 3000 rounds per state: existence = registration",
 		Floor: [2]int{150, 1500},
 		Assumptions: []string{"the recording Cronner keys jobs by (location, id), i.e. it reports what the engine asked for", "stale registrations are attributed to open findings by the kind of step that should have removed them"},
 		Stages: []Stage{
